@@ -183,6 +183,6 @@ def strat_items(tier):
 
 
 PARTS = [
-    Part("cancel", run, strategy, {"quick": 2400, "thorough": 60000}, rule=RULE),
-    Part("items-siblings", run, strat_items, {"quick": 1000, "thorough": 30000}, rule="directed: concurrency-limited with-items tasks beside plain tasks, cancel placed anywhere (also right after pause / resume)"),
+    Part("cancel", run, strategy, {"quick": 2400, "thorough": 24000}, rule=RULE),
+    Part("items-siblings", run, strat_items, {"quick": 1000, "thorough": 10000}, rule="directed: concurrency-limited with-items tasks beside plain tasks, cancel placed anywhere (also right after pause / resume)"),
 ]
